@@ -343,9 +343,16 @@ func cmdCheck(args []string) int {
 	lobls, lunsup := v.lemmaObligations(*prop)
 	obls = append(obls, lobls...)
 	unsup = append(unsup, lunsup...)
+	known := loadKnownFindings()
+	for _, o := range obls {
+		for i := range known {
+			if known[i].Property == *prop && known[i].Status == "known" && known[i].Obligation == o.Name {
+				o.TimeoutMs = 1500
+			}
+		}
+	}
 	v.solveAll(obls, runtime.NumCPU())
 
-	known := loadKnownFindings()
 	isKnown := func(name string) *knownFinding {
 		for i := range known {
 			if known[i].Property == *prop && known[i].Status == "known" && known[i].Obligation == name {
